@@ -39,6 +39,10 @@ type World struct {
 	// connections accepted by daemons (server side reads): it is called with
 	// the available byte count and returns how many to hand out (>=1).
 	ReadChunk func(c *Conn, avail int) int
+	// Yield, if set, is called at the start of every Write on an endpoint
+	// accepted by a daemon: a write is a system call, and other goroutines
+	// run while it is in progress.
+	Yield func(site string)
 	// BufSize is the default send buffer bound per direction.
 	BufSize int
 	Stats   Stats
@@ -371,6 +375,9 @@ func (h *half) armWrite() {
 }
 
 func (c *Conn) Write(p []byte) (int, error) {
+	if c.isServer && c.w != nil && c.w.Yield != nil {
+		c.w.Yield("simnet.Conn.Write")
+	}
 	h := c.out
 	h.mu.Lock()
 	written := 0
